@@ -86,9 +86,11 @@ def polyline_cases(draw, degenerate=False):
     if degenerate and n >= 2:
         i = draw(st.integers(1, n - 1))
         P[i] = list(P[i - 1])
-    qkind = draw(st.sampled_from(["grid", "grid", "on-curve", "vertex", "equidistant"]))
+    qkind = draw(st.sampled_from(["grid", "grid", "on-curve", "vertex", "equidistant", "near-vertex", "near-vertex"]))
     q = draw(st.lists(st.integers(-12, 12).map(lambda v: F(v, 2)), min_size=dim, max_size=dim))
     return {"U": U, "P": P, "qkind": qkind, "q": q, "t0": draw(st.integers(1, 31)),
+            "eps": draw(st.sampled_from([F(1, 2048), F(1, 4096), F(1, 1024), F(3, 8192)])),
+            "off": draw(st.sampled_from([F(0), F(0), F(1, 4096), F(-1, 2048)])),
             "vi": draw(st.integers(0, n - 1)), "num": draw(st.sampled_from(["float", "npfloat"]))}
 
 
@@ -154,6 +156,13 @@ def check_polyline(case, out):
         q = tuple(oracle.frac(float(a + s * (b - a))) for a, b in zip(A, B))
     elif qkind == "vertex":
         q = ref.P[case["vi"]]
+    elif qkind == "near-vertex":
+        # a point on (or a hair off) the curve very close to a vertex / end, but not at it
+        lo, hi, A, B = segs[case["vi"] % len(segs)]
+        s = case["eps"] if case["t0"] % 2 else 1 - case["eps"]
+        base = [a + s * (b - a) for a, b in zip(A, B)]
+        base[0] += case["off"]
+        q = tuple(oracle.frac(float(x)) for x in base)
     elif qkind == "equidistant" and len(segs) >= 2:
         # midpoint between the midpoints of two segments (often equidistant or near it)
         i = case["vi"] % (len(segs) - 1)
